@@ -38,8 +38,12 @@ def h_sets(E):
     names = D + ['f', 'zz']
     used = {f for f in names if E.fork_bool('used_' + f)}
     required = [f for f in D[:2] + ['f'] if E.fork_bool('req_' + f)]
-    permitted = get_permitted_functions(D, wl, bl, {'f': abs})
-    want = {'f'} | (set() if mode == 'none' else (set(wl) if mode == 'subset' else set(D) - set(bl)))
+    user = {'f': abs}
+    if E.fork_bool('user_function_overrides_sin'):
+        user['sin'] = abs
+    permitted = get_permitted_functions(D, wl, bl, user)
+    # whitelist modes: user functions are always allowed; blacklist mode: a blacklisted name is refused even if the author overrides it
+    want = (set(user) if mode == 'none' else (set(user) | set(wl) if mode == 'subset' else (set(user) | set(D)) - set(bl)))
     E.check('permitted-set-is-documented-formula', set(permitted) == want)
     try:
         validate_only_permitted_functions_used(used, permitted)
